@@ -112,10 +112,6 @@ theorem view_coalesce (d : DD β) (k i u : Nat) (hk : 2 ≤ k) (hi : i ≠ k - 1
 theorem view_coalesce_parent (d : DD β) (k u : Nat) (hk : 2 ≤ k) :
     (d.coalesce k).view (k - 1) u = d.view k u := viewUpTo_coalesce_parent d k u hk
 
-/-- File `k` has been folded into `k-1`. -/
-def Coalesced (d : DD β) (k : Nat) : Prop :=
-  ∀ u, (d.files k).alloc (u / d.bs) = true →
-    (d.files (k - 1)).alloc (u / d.bs) = true ∧ (d.files (k - 1)).data u = (d.files k).data u
 
 theorem coalesced_coalesce (d : DD β) (k : Nat) (hk : 2 ≤ k) : Coalesced (d.coalesce k) k := by
   intro u ha
